@@ -1,3 +1,4 @@
+\* measured: 189,698 distinct / 2,602,086 generated states, depth 13
 SPECIFICATION Spec
 CONSTANTS
   Lens = {4, 5}
